@@ -467,13 +467,15 @@ def effFault (q : Cq) (f : WFault) : WFault :=
   | .short n => if lastReadOnly q then .eio else .short n
   | f => f
 
+/-- a file under the next unused id -/
+def World.addFile (w : World) (f : File) : World :=
+  { w with files := fun i => if i = w.nfiles then f else w.files i, nfiles := w.nfiles + 1 }
+
 /-- successful mkostemp() in upload dir `dir`: a file under a fresh id (nothing
     refers to ids >= nfiles: both counts are 0 before), name linked, one descriptor -/
 def createTemp (w : World) (dir : Nat) : World × Nat :=
-  let fid := w.nfiles
-  let f := w.files fid
-  ({ w.setFile fid { content := [], nlink := f.nlink + 1, nfd := f.nfd + 1, dir := dir } with
-       nfiles := fid + 1 }, fid)
+  (w.addFile { content := [], nlink := (w.files w.nfiles).nlink + 1, nfd := (w.files w.nfiles).nfd + 1,
+               dir := dir }, w.nfiles)
 
 /-- the directory loop of chunkqueue_get_append_newtempfile() -/
 def mkstempDirs : Nat → World → Nat → World × Nat × Option Nat
@@ -501,37 +503,48 @@ def newTempfile (w : World) (q : Cq) : World × Cq × Bool :=
       let (w, fid) := createTemp w 0
       (w, { q with chunks := q.chunks ++ [.file fid 0 0 true .rw] }, true)
 
+/-- the size from which on a temp file is closed and a new one started -/
+def tempLimit (w : World) (q : Cq) : Nat := if q.tempSize ≠ 0 then q.tempSize else w.defTempSize
+
 /-- chunkqueue_get_append_tempfile() -/
 def getAppendTempfile (w : World) (q : Cq) : World × Cq × Bool :=
   match q.chunks.getLast? with
   | some (.file fid off len true fd) =>
     if fd.isOpen then
-      let uts := if q.tempSize ≠ 0 then q.tempSize else w.defTempSize
-      if len < uts then (w, q, true)
+      if len < tempLimit w q then (w, q, true)
       else
         -- the temp file is large enough: close it, start another one
         newTempfile (w.closeFd fid) { q with chunks := setLast q.chunks (.file fid off len true .none) }
     else newTempfile w q
   | _ => newTempfile w q
 
-/-- chunkqueue_append_tempfile_err() for errno ∈ {ENOSPC, EIO} (EINTR is
-    handled by the callers: plain retry); `c` is the last chunk.  `true` = retry -/
-def tempfileErr (w : World) (q : Cq) (enospc : Bool) : World × Cq × Bool :=
-  let bump := enospc && decide (w.ndirs > 0)
-  let q := if bump then { q with tdIdx := q.tdIdx + 1 } else q
-  let retry := bump && decide (q.tdIdx < w.ndirs)
+/-- `++cq->tempdir_idx < tempdirs->used` on ENOSPC with upload dirs configured:
+    the queue moves on to the next dir; `true` = there is one -/
+def bumpDir (w : World) (q : Cq) (enospc : Bool) : Cq × Bool :=
+  if enospc && decide (w.ndirs > 0) then
+    ({ q with tdIdx := q.tdIdx + 1 }, decide (q.tdIdx + 1 < w.ndirs))
+  else (q, false)
+
+/-- after a failed write: an empty temp chunk (last) is removed together with
+    its file — chunkqueue_remove_empty_chunks() — a non-empty one is closed so
+    that nothing is appended to it any more -/
+def dropOrCloseLast (w : World) (q : Cq) : World × Cq :=
   match q.chunks.getLast? with
   | some c =>
-    if c.rem = 0 then
-      let (w, q) := removeEmpty w q
-      (w, q, retry)
+    if c.rem = 0 then removeEmpty w q
     else match c with
       | .file fid off len t fd =>
-        if fd.isOpen then
-          (w.closeFd fid, { q with chunks := setLast q.chunks (.file fid off len t .none) }, retry)
-        else (w, q, retry)
-      | _ => (w, q, retry)
-  | none => (w, q, retry)
+        if fd.isOpen then (w.closeFd fid, { q with chunks := setLast q.chunks (.file fid off len t .none) })
+        else (w, q)
+      | _ => (w, q)
+  | none => (w, q)
+
+/-- chunkqueue_append_tempfile_err() for errno ∈ {ENOSPC, EIO, EBADF} (EINTR is
+    handled by the callers: plain retry); the failed chunk is the last one.
+    `true` = retry -/
+def tempfileErr (w : World) (q : Cq) (enospc : Bool) : World × Cq × Bool :=
+  match dropOrCloseLast w (bumpDir w q enospc).1 with
+  | (w', q') => (w', q', (bumpDir w q enospc).2)
 
 /-- the last chunk grows by `n` bytes written at its end -/
 def growLast (q : Cq) (n : Nat) : Cq :=
